@@ -355,7 +355,7 @@ def check(ctx):
             small, large, strict = rel
             lk = gs.calls(small, r"BackoffStorage::get_backoff_time$")
             return (not strict) and render(large).endswith("Instant::now()") and bool(lk) and render(lk[0][2][1]) == topic_r and render(lk[0][2][2]) == peer_r
-        ok = head is not None and hg.must_pass_edges(m.bb, hg.guard_edges(not_running), start=head)
+        ok = head is not None and hg.must_pass_edges(m.bb, gs.guard(hg, not_running, head), start=head)
         ctx.ob("eligible", "handle_graft: not backed off", ok, m.loc(), "every path from the topic loop head to peers.insert passes `no backoff for (topic, peer)` or `backoff_time > now` false")
         # mesh_n_high
         cnt = r"^std::collections::BTreeSet::len\(std::collections::HashMap::get_mut\(self\.mesh, " + re.escape(topic_r) + r"\)@Some\.0\)$"
@@ -372,7 +372,7 @@ def check(ctx):
         reg = hg.reachable(gs.edge_targets(at), stop_nodes=[head]) if at and head is not None else {m.bb}
         ctx.ob("limit", "handle_graft: full mesh => no insertion", m.bb not in reg, m.loc(), "peers.insert unreachable from the len >= mesh_n_high edge within the iteration")
         # negative score refusal also PRUNEs
-        neg_true = hg.guard_edges(lambda c, r, l: l == "true" and neg_false(c, r, "false"))
+        neg_true = gs.guard(hg, lambda c, r, l: l == "true" and neg_false(c, r, "false"))
         got = lib.count_range(hg, gs.edge_targets(neg_true), [head], lib.bbs(prune_ins)) if neg_true and head is not None else None
         ctx.ob("eligible", "handle_graft: a negative-score GRAFT is answered with a PRUNE entry", got == (1, 1), m.loc(), "to_prune_topics.insert on the below_zero edge: %s" % (got,))
         # every queued topic is turned into a PRUNE for this peer
@@ -390,7 +390,7 @@ def check(ctx):
         topic_r = render(topic_c[0][2][1]) if topic_c else "?"
 
         def from_head(pred, desc, inst):
-            edges = hs.guard_edges(pred)
+            edges = gs.guard(hs, pred, head if head is not None else 0)
             ok = bool(edges) and head is not None and hs.must_pass_edges(m.bb, edges, start=head)
             ctx.ob("eligible", "handle_received_subscriptions: " + inst, ok, m.loc(), ("every path from the subscription loop head to peers.insert passes: " if ok else "a path reaches peers.insert without: ") + desc)
         ctx.guarded("eligible", "handle_received_subscriptions: peer is connected", m, lambda c, r, l: l == "Some" and r == "discr(std::collections::HashMap::get_mut(self.connected_peers, %s))" % peer_r,
@@ -510,7 +510,7 @@ def check(ctx):
                     return False
                 small, large, strict = rel
                 return (not strict) and is_zero_f(small) and score_of(prog, cl, gs.expand(cl, large), lambda a: a[0] == "arg" and a[1] == 2)
-            ne, nn = cl.guard_edges(neg), cl.guard_edges(nonneg)
+            ne, nn = gs.guard(cl, neg), gs.guard(cl, nonneg)
             ok = bool(falses) and bool(trues) and bool(ne) and bool(nn) and all(cl.must_pass_edges(s.bb, nn) for s in trues) and \
                 all(lib.count_range(cl, [t], cl.return_blocks(), lib.bbs(trues)) == (0, 0) for _, t in ne)
             msg = "`true` (keep) only on score >= 0.0; score < 0.0 => `false` (drop) on every path: %s" % ok
